@@ -40,6 +40,8 @@ pub enum Op {
     Evaluate(String),
     SetBreakpoints(Vec<(usize, Option<usize>)>),
     Threads,
+    /// setVariable(name, value text) - only sent while the client believes the machine is halted
+    SetVariable(String, String),
 }
 
 impl Op {
@@ -58,6 +60,7 @@ impl Op {
             Op::Evaluate(e) => json!({"op": "evaluate", "expr": e}),
             Op::SetBreakpoints(b) => json!({"op": "setBreakpoints", "lines": b.iter().map(|(l, c)| json!([l, c])).collect::<Vec<_>>()}),
             Op::Threads => json!({"op": "threads"}),
+            Op::SetVariable(n, t) => json!({"op": "setVariable", "name": n, "value": t}),
         }
     }
     fn from_json(v: &Value) -> Option<Op> {
@@ -81,6 +84,7 @@ impl Op {
                     .collect::<Option<Vec<_>>>()?,
             ),
             "threads" => Op::Threads,
+            "setVariable" => Op::SetVariable(v.get("name")?.as_str()?.to_string(), v.get("value")?.as_str()?.to_string()),
             _ => return None,
         })
     }
@@ -250,7 +254,17 @@ pub fn gen_case(seed: u64, k: u64) -> Case {
             9 => Op::Evaluate(r.pick_str(&["cpu.a", "cpu.x", "cpu.y", "cpu.a + cpu.x", "cpu.flags.zero", "cpu.flags.carry"]).to_string()),
             10 => Op::SetBreakpoints(pick_bps(&mut r)),
             11 => Op::Threads,
-            _ => Op::Vars(1),
+            _ => {
+                let name = r.pick_str(&["A", "X", "Y", "A", "X", "PC"]).to_string();
+                let n = r.below(256);
+                let text = match r.below(6) {
+                    0 => format!("${:02x}", n),
+                    1 => format!("%{:08b}", n),
+                    2 => (*r.pick_str(&["300", "zz", "$100", "-1", ""])).to_string(),
+                    _ => n.to_string(),
+                };
+                Op::SetVariable(name, text)
+            }
         };
         ops.push(op);
     }
@@ -302,6 +316,8 @@ pub struct Frame {
 }
 
 pub struct Reference {
+    /// register writes by the client: (CYC at which the machine was halted, register, value)
+    pub overrides: Vec<(u64, String, u8)>,
     pub trace: Vec<TraceEntry>,
     /// span of every pc of the trace: (path, begin line, begin col, end line, end col), 0-based
     pub frames: BTreeMap<u16, Option<Frame>>,
@@ -314,7 +330,13 @@ pub struct Reference {
 pub const MAX_TRACE: usize = 3000;
 
 pub fn build_reference(program: &str, path: &str) -> Reference {
-    let mut reference = Reference { trace: vec![], frames: BTreeMap::new(), ok: false, error: String::new(), bp_ranges: BTreeMap::new(), n_lines: program.lines().count() };
+    build_reference_with(program, path, &[])
+}
+
+/// The uninterrupted run, with the client's register writes applied at the positions at which
+/// the (halted) machine received them.
+pub fn build_reference_with(program: &str, path: &str, overrides: &[(u64, String, u8)]) -> Reference {
+    let mut reference = Reference { overrides: overrides.to_vec(), trace: vec![], frames: BTreeMap::new(), ok: false, error: String::new(), bp_ranges: BTreeMap::new(), n_lines: program.lines().count() };
     let src = InMemoryParsingSource::new().add(path, program).into();
     let mut runner = match TestRunner::new(src, Path::new(path), &"t".into()) {
         Ok(r) => r,
@@ -326,6 +348,18 @@ pub fn build_reference(program: &str, path: &str) -> Reference {
     let codegen = runner.codegen();
     let mut call_stack: Vec<u16> = vec![];
     loop {
+        let now = runner.num_cycles() as u64;
+        for (c, name, value) in overrides {
+            if *c == now {
+                let cpu = runner.cpu_mut();
+                match name.as_str() {
+                    "A" => cpu.set_accumulator(*value),
+                    "X" => cpu.set_x_register(*value),
+                    "Y" => cpu.set_y_register(*value),
+                    _ => {}
+                }
+            }
+        }
         let cpu = runner.cpu();
         let pc = cpu.get_program_counter();
         let opcode = {
@@ -436,6 +470,7 @@ pub struct Verdict {
     pub trace_len: usize,
     pub notes: Vec<String>,
     pub ops_done: u64,
+    pub set_variables: u64,
 }
 
 #[derive(Clone, Debug, PartialEq)]
@@ -811,6 +846,31 @@ impl<'a> Session<'a> {
             (Op::Evaluate(e), _) => {
                 let _ = self.dap.request("evaluate", json!({"expression": e}))?;
             }
+            (Op::SetVariable(name, text), View::Stopped(i)) => {
+                let r = self.dap.request("setVariable", json!({"variablesReference": 1, "name": name, "value": text}))?;
+                let accepted = r.get("success").and_then(|s| s.as_bool()) == Some(true);
+                let value = r.get("body").and_then(|b| b.get("value")).and_then(|x| x.as_str()).and_then(|s| s.parse::<u8>().ok());
+                if let (true, Some(value)) = (accepted, value) {
+                    self.v.set_variables += 1;
+                    // the run the machine is on from here: the same program with this write applied at this position
+                    let cyc = self.reference.trace[i].cycles;
+                    let mut ov = self.reference.overrides.clone();
+                    ov.push((cyc, name.clone(), value));
+                    let program = self.case.program.clone();
+                    let path = self.path.clone();
+                    let mut nr = build_reference_with(&program, &path, &ov);
+                    if !nr.ok || nr.index_of_cycles(cyc) != Some(i) {
+                        // e.g. the modified run does not end within the trace budget: nothing to compare with any more
+                        self.v.notes.push(format!("reference after setVariable unavailable: {}", nr.error));
+                        self.view = View::Unknown;
+                        return Ok(());
+                    }
+                    nr.bp_ranges = std::mem::take(&mut self.reference.bp_ranges);
+                    self.reference = nr;
+                    // the halted machine shows the new value and did not move
+                    self.query_registers(Some(i))?;
+                }
+            }
             (Op::SetBreakpoints(bps), view) => {
                 let lines: Vec<Value> = bps
                     .iter()
@@ -1175,7 +1235,7 @@ pub fn main(cli: &Cli) -> i32 {
                 for (k2, c) in [
                     ("stops_observed", v.stops_observed), ("pauses", v.pauses), ("steps", v.steps), ("resumes", v.resumes),
                     ("breakpoint_changes_while_running", v.bp_changes_while_running), ("steps_while_running", v.steps_while_running), ("terminated", v.terminated as u64),
-                    ("client_ops", v.ops_done), ("reference_instructions", v.trace_len as u64),
+                    ("client_ops", v.ops_done), ("reference_instructions", v.trace_len as u64), ("set_variables_accepted", v.set_variables),
                 ] {
                     *acc.counters.entry(k2.to_string()).or_insert(0) += c;
                 }
@@ -1268,7 +1328,7 @@ pub fn main(cli: &Cli) -> i32 {
     ev.evaluations = acc.runs;
     ev.distinct_nontrivial = acc.nontrivial.len() as u64;
     ev.rule = format!(
-        "{} executions of the full simulated `mos lsp` process with a DAP session on the emulated test machine: program from a grammar (straight-line code, counted loops, up to 2 subroutines, macro and .loop expansion, asserts/traces; <= {} instructions), 0-3 initial breakpoints, 6-40 client operations (wait for stopped, pause, continue, next, stepIn, stepOut, stackTrace, scopes, variables, evaluate, setBreakpoints, threads) with simulated delays from {{0, 1, 10, 49, 50, 51, 200 ms}}; the seed decides every interleaving of client, session, machine, poller, reader/writer and clock tasks, stream chunking and buffer sizes. Reference: the real TestRunner run sequentially; CYC identifies the true position. distinct = distinct hash of the sequence of tasks chosen at context switches; non-trivial = violation-free AND >= 1 stop observed AND >= 10 context switches AND >= 3 tasks runnable at once",
+        "{} executions of the full simulated `mos lsp` process with a DAP session on the emulated test machine: program from a grammar (straight-line code, counted loops, up to 2 subroutines, macro and .loop expansion, asserts/traces; <= {} instructions), 0-3 initial breakpoints, 6-40 client operations (wait for stopped, pause, continue, next, stepIn, stepOut, stackTrace, scopes, variables, evaluate, setBreakpoints, threads, setVariable of A/X/Y while halted - the reference run is then recomputed with that write applied at that position) with simulated delays from {{0, 1, 10, 49, 50, 51, 200 ms}}; the seed decides every interleaving of client, session, machine, poller, reader/writer and clock tasks, stream chunking and buffer sizes. Reference: the real TestRunner run sequentially; CYC identifies the true position. distinct = distinct hash of the sequence of tasks chosen at context switches; non-trivial = violation-free AND >= 1 stop observed AND >= 10 context switches AND >= 3 tasks runnable at once",
         n, MAX_TRACE
     );
     ev.samples = acc.samples.iter().map(|(_, v)| v.clone()).collect();
